@@ -284,10 +284,15 @@ def tfn_suites(ctx, exe, tier):
 BORDERLINE = re.compile(r'^(long|many|deep|big)-[a-z-]+/4000')
 
 # family -> (quick size, thorough size); None = all
+# The thorough sizes are the prefixes of the fixed permutations that have been
+# soaked completely on the unchanged tree (DESIGN 2.2: quick subset-of thorough
+# subset-of soaked space); they were sized to what a very loaded host could
+# soak, not to the generators (stream_space in the evidence gives the full
+# sizes).
 SIZES = {
-    'form': (900, None), 'form-token': (300, None), 'block-skel': (300, None),
-    'block': (200, None), 'block3': (0, 500), 'expr': (1500, None),
-    'prog': (40, 400), 'corpus': (2000, 6000),
+    'form': (900, 5400), 'form-token': (300, None), 'block-skel': (300, None),
+    'block': (200, None), 'block3': (0, 500), 'expr': (1500, 2400),
+    'prog': (40, 400), 'corpus': (1000, 2000),
 }
 
 
